@@ -26,13 +26,19 @@ run_one() {
   git -C /repo worktree remove --force $WT >/dev/null 2>&1; rm -rf $WT $OUT
 }
 export -f run_one
-ls -d seeded/$GLOB/ | sed 's:/$::' | xargs -P $PAR -I{} bash -c "run_one {} $TIER" | sort | tee /tmp/seed_sweep.out
-python3 - <<'PY'
-import json,re
+ls -d seeded/$GLOB/ | sed 's:/$::' | xargs -P $PAR -I{} bash -c "run_one {} $TIER" | sort | tee /tmp/seed_sweep.$$.out
+python3 - /tmp/seed_sweep.$$.out <<'PY'
+import json,re,sys,os
+# a partial sweep (seed-glob) updates the rows of the seeds it ran and keeps the others
 rows=[]
-for l in open('/tmp/seed_sweep.out'):
+new=[]
+for l in open(sys.argv[1]):
     p=l.split(None,3)
-    if len(p)>=3: rows.append({"seed":p[0],"property":p[1],"status":p[2],"detail":p[3].strip() if len(p)>3 else ""})
+    if len(p)>=3: new.append({"seed":p[0],"property":p[1],"status":p[2],"detail":p[3].strip() if len(p)>3 else ""})
+done={r['seed'] for r in new}
+if os.path.exists('/verif/seeded/SWEEP.json'):
+    rows=[r for r in json.load(open('/verif/seeded/SWEEP.json')) if r['seed'] not in done and os.path.isdir('/verif/seeded/'+r['seed'])]
+rows=sorted(rows+new,key=lambda r:r['seed'])
 json.dump(rows,open('/verif/seeded/SWEEP.json','w'),indent=1)
 print(sum(r['status']=='caught' for r in rows),"caught of",len(rows))
 PY
